@@ -133,30 +133,40 @@ theorem tree_roundtrip (F : Folder) (heap : NodeId → Node) (hax : AxesUnique h
       Inv heap ids' (lheap ++ le) (trees ++ te) :=
   clauseLoop_serNodes F heap hax w ids ids' bytes rest trees lheap log fuel hser hplain hsize hinv hfuel
 
+theorem nodup_of_check : ∀ (l : List NodeId), nodupB l = true → l.Nodup
+  | [], _ => List.nodup_nil
+  | a :: r, h => by
+    simp only [nodupB, Bool.and_eq_true, Bool.not_eq_true', List.contains_eq_mem, decide_eq_false_iff_not] at h
+    exact List.nodup_cons.mpr ⟨h.1, nodup_of_check r h.2⟩
+
 /-- the executable hypothesis check implies the hypothesis -/
 theorem shapeOK_of_check (heap : NodeId → Node) (fuel : Nat) (s : Shape) (h : shapeOKb heap fuel s = true) :
     ShapeOK heap fuel s := by
-  simp only [shapeOKb, Bool.and_eq_true, List.isEmpty_iff, List.all_eq_true, rootLastB, beq_iff_eq,
+  simp only [shapeOKb, Bool.and_eq_true, List.all_eq_true, rootLastB, beq_iff_eq,
     Bool.not_eq_true', List.contains_eq_mem, decide_eq_false_iff_not] at h
   obtain ⟨⟨h1, h2⟩, h3, h4⟩ := h
-  refine ⟨h1, h2, (walk heap fuel s.tree).dropLast, ?_, h4⟩
+  refine ⟨nodup_of_check _ h1, h2, (walk heap fuel s.tree).dropLast, ?_, h4⟩
   exact eq_dropLast_append _ _ h3
 
 /-! ## archives -/
 
-/-- **archive_roundtrip_partial.** For every archive — any number of shapes, any names and docs
-    (any bytes), roots that repeat or are sub-expressions of earlier shapes (`'t'` references), any
-    sharing — whose shapes carry *no variable names*, whose nodes are fixed points of the loader's
-    constructors, whose walks end in their root, and which has fewer than 2^32 nodes:
-    `Archive::deserialize (Archive::serialize a)` succeeds, prints nothing, consumes the stream to
-    the end, returns as many shapes in the same order with the same name and doc and no variables,
-    each rooted at the loader's copy of its original root (same stream position), in a heap that is
-    an isomorphic copy (`Inv`) of the stored DAG.
+/-- **archive_roundtrip.** For every archive — any number of shapes, any names, docs and variable
+    names (any bytes), roots that repeat or are sub-expressions of earlier shapes (`'t'` references),
+    any sharing, any subset of variables named (keys of the `std::map` distinct) — whose nodes are
+    fixed points of the loader's constructors, whose walks end in their root, and which has fewer
+    than 2^32 nodes: `Archive::deserialize (Archive::serialize a)` succeeds, prints nothing, consumes
+    the stream to the end, and returns as many shapes in the same order (`AllMatch … ShapeMatch`):
+    same name, same doc, root = the loader's copy of the original root (same stream position), and
+    variable map = `varsOf`: every named variable that is in the id table when the shape is written
+    (in particular every one that occurs in the shape's tree), bound under its name to the loader's
+    copy of that variable; in a heap that is an isomorphic copy (`Inv`) of the stored DAG, hence with
+    the same denotation (`roundtrip_same_denotation`).
 
-    Full statement (`archive_roundtrip`, FALSE for this code): the same with arbitrary `s.vars`, and
-    in the conclusion `ls.vars` = the named variables that occur in the tree, each bound to the
-    loader's copy of that variable.  See `archive_roundtrip_fails_with_named_variable`. -/
-theorem archive_roundtrip_partial (F : Folder) (heap : NodeId → Node) (hax : AxesUnique heap) (fuelW : Nat)
+    Still by hypothesis rather than modelled in the theorem: load-time simplification (`nodePlain`;
+    trees built through the API are fixed points — checked on every generated archive), the order
+    property of `Tree::walk` (`RootLast`, operands before parents = `serShapes` succeeds; both
+    checked on every run).  ORACLE clauses are outside the model. -/
+theorem archive_roundtrip (F : Folder) (heap : NodeId → Node) (hax : AxesUnique heap) (fuelW : Nat)
     (shapes : List Shape) (bytes : List Byte) (ids' : List NodeId)
     (hser : serShapes heap fuelW [] shapes = .ok (bytes, ids'))
     (hok : ∀ s ∈ shapes, ShapeOK heap fuelW s) (hsize : ids'.length < 4294967296) :
@@ -168,28 +178,57 @@ theorem archive_roundtrip_partial (F : Folder) (heap : NodeId → Node) (hax : A
       hser hok hsize (Inv.init heap) (Nat.le_refl _)
   exact ⟨lshapes, _, hread, rfl, rfl, by simpa using hinv, by simpa using hm⟩
 
-/-! ### the hypotheses are satisfiable: min(x*y, x+1) saved twice (second time by reference),
-    plus its sub-expression x+1, with adversarial names -/
+/-- **archive_roundtrip_flat.** The same for shapes whose trees may still contain remap/apply:
+    the (fixed) serializer stores `flat s.tree` = `s.tree.flatten()`, so the archive loads back as
+    the archive of the flattened shapes.  That flattening preserves the function is C07
+    (`Libfive.flatten_sound`); nothing about `flat` is assumed here. -/
+theorem archive_roundtrip_flat (F : Folder) (heap : NodeId → Node) (flat : NodeId → NodeId)
+    (hax : AxesUnique heap) (fuelW : Nat) (shapes : List Shape) (bytes : List Byte)
+    (hser : serializeFlat heap flat fuelW shapes = .ok bytes)
+    (hok : ∀ s ∈ shapes, ShapeOK heap fuelW { s with tree := flat s.tree })
+    (hsize : ∀ b ids', serShapes heap fuelW [] (shapes.map fun s => { s with tree := flat s.tree }) = .ok (b, ids') →
+      ids'.length < 4294967296) :
+    ∃ (ids' : List NodeId) (lshapes : List LShape) (st : DState),
+      deserialize F bytes = .ok (lshapes, st) ∧ st.log = [] ∧ st.inp = ⟨[], true⟩ ∧
+      Inv heap ids' st.heap st.trees ∧
+      AllMatch (ShapeMatch ids' st.trees) (shapes.map fun s => { s with tree := flat s.tree }) lshapes := by
+  simp only [serializeFlat, serialize] at hser
+  cases h : serShapes heap fuelW [] (shapes.map fun s => { s with tree := flat s.tree }) with
+  | error e => simp [h] at hser
+  | ok r =>
+    obtain ⟨b, ids'⟩ := r
+    simp only [h] at hser
+    injection hser with hb
+    subst hb
+    obtain ⟨ls, st, h1, h2, h3, h4, h5⟩ := archive_roundtrip F heap hax fuelW _ b ids' h
+      (by intro s hs; obtain ⟨s0, hs0, rfl⟩ := List.mem_map.mp hs; exact hok s0 hs0) (hsize b ids' h)
+    exact ⟨ids', ls, st, h1, h2, h3, h4, h5⟩
+
+/-! ### the hypotheses are satisfiable: min(x*y, x+1) saved twice (second time by reference), its
+    sub-expression x+1, and min(..) - v with v named `"\xff\\` plus a named variable that is not in
+    the tree, with adversarial names -/
 
 def exHeap : NodeId → Node := fun i =>
   match i with
   | 0 => { op := .varX } | 1 => { op := .varY } | 2 => { op := .constant, value := 0x3f800000 }
   | 3 => { op := .mul, lhs := 0, rhs := 1 } | 4 => { op := .add, lhs := 0, rhs := 2 }
   | 5 => { op := .min, lhs := 3, rhs := 4 }
+  | 6 => { op := .varFree } | 7 => { op := .sub, lhs := 5, rhs := 6 }
   | _ => { op := .invalid }
 
 def exShapes : List Shape :=
   [{ tree := 5, name := [QUOTE, BACKSLASH, 0xFF], doc := [], vars := [] },
    { tree := 5, name := [0x61], doc := [BACKSLASH], vars := [] },
-   { tree := 4, name := [], doc := [QUOTE], vars := [] }]
+   { tree := 4, name := [], doc := [QUOTE], vars := [] },
+   { tree := 7, name := [0x62], doc := [], vars := [(6, [QUOTE, 0xFF, BACKSLASH]), (99, [0x7a])] }]
 
 theorem exAxes : AxesUnique exHeap := by
   intro a b h hx
   have key : ∀ i, ((exHeap i).op = Op.varX ↔ i = 0) ∧ ((exHeap i).op = Op.varY ↔ i = 1) ∧ (exHeap i).op ≠ Op.varZ := by
     intro i
     match i with
-    | 0 | 1 | 2 | 3 | 4 | 5 => simp [exHeap]
-    | k + 6 => simp [exHeap]
+    | 0 | 1 | 2 | 3 | 4 | 5 | 6 | 7 => simp [exHeap]
+    | k + 8 => simp [exHeap]
   rcases hx with e | e | e
   · have h1 := (key a).1.mp e; have h2 := (key b).1.mp (h ▸ e); rw [h1, h2]
   · have h1 := (key a).2.1.mp e; have h2 := (key b).2.1.mp (h ▸ e); rw [h1, h2]
@@ -201,7 +240,7 @@ example : ∃ bytes ids', serShapes exHeap 8 [] exShapes = .ok (bytes, ids') ∧
   intro s hs
   apply shapeOK_of_check
   simp only [exShapes, List.mem_cons, List.not_mem_nil, or_false] at hs
-  rcases hs with rfl | rfl | rfl <;> decide
+  rcases hs with rfl | rfl | rfl | rfl <;> decide
 
 /-- **roundtrip_same_denotation.** What the isomorphism of `tree_roundtrip` /
     `archive_roundtrip_partial` means for functions: under *every* interpretation of the opcodes
@@ -216,7 +255,7 @@ theorem roundtrip_same_denotation {α : Type} (I : Interp α) (heap : NodeId →
 
 example : Inv exHeap [] heap0 [] := Inv.init exHeap
 
-/-! ### … and the full statement is false: a named variable does not come back -/
+/-! ### the archive that did not load before fix 38f63f2 -/
 
 def witnessHeap : NodeId → Node := fun i =>
   match i with
@@ -230,17 +269,23 @@ def witnessBytes : List Byte :=
   [0x54, 0x22, 0x6e, 0x22, 0x22, 0x64, 0x22, 0x02, 0x05, 0x11, 1, 0, 0, 0, 0, 0, 0, 0, 0xff,
    0x22, 0x72, 0x22, 1, 0, 0, 0, 0xff]
 
-/-- **archive_roundtrip_fails_with_named_variable.** The archive `x + v`, `v` named "r", satisfies
-    every hypothesis of `archive_roundtrip_partial` except `vars = []`; it serialises to
-    `witnessBytes`; and the loader, for every folder, takes the opening quote of the name for the
-    "is this END_OF_ITEM?" byte, complains (`expected opening "`), looks up a garbage index
-    (`expected t != trees.end()`) and goes on by dereferencing `trees.end()`: the name "r" is not
-    returned. (Replayed on the real code as corpus case `w-var`.) -/
-theorem archive_roundtrip_fails_with_named_variable :
+/-- **archive_roundtrip_failed_before_fix.** With the variable loop as it was before 38f63f2
+    (`varLoopOld`: the END_OF_ITEM test consumed a byte) the archive `x + v`, `v` named "r" — which
+    satisfies every hypothesis of `archive_roundtrip` — did not load back: for every folder the
+    reader took the opening quote for the test byte, complained twice and went on by dereferencing
+    `trees.end()`.  (Corpus case `w-var` replays it on the real code, where it must now pass.) -/
+theorem archive_roundtrip_failed_before_fix :
     serialize witnessHeap 8 witnessShapes = .ok witnessBytes ∧
-    ∀ F : Folder, deserialize F witnessBytes = .error (Stop.indeterminate, [Err.strOpen, Err.varIdx]) := by
+    ∀ F : Folder, deserializeOld F witnessBytes = .error (Stop.indeterminate, [Err.strOpen, Err.varIdx]) := by
   refine ⟨rfl, ?_⟩
   intro F
   rfl
+
+/-- … and with the reader as it is now it does: `v` comes back as node 5 of the loader's heap
+    (`heap0` has 4 singletons, `x` is one of them, then `v`, then `x + v`), named "r" -/
+example : ∀ F : Folder, ∃ st, deserialize F witnessBytes
+    = .ok ([{ tree := 5, name := [0x6e], doc := [0x64], vars := [(4, [0x72])] }], st) ∧ st.log = [] := by
+  intro F
+  exact ⟨_, rfl, rfl⟩
 
 end Libfive.C08
